@@ -96,12 +96,19 @@ def run_ledger(args, stdin=None, timeout=60, cwd=None, env=None, merge_stderr=Fa
     """Run ledger; returns (status, stdout bytes, stderr bytes).  status < 0 = signal,
     status = 'timeout' on timeout."""
     cmd = [ledger_bin(), '--init-file', '/dev/null'] + list(args)
-    try:
-        p = subprocess.run(cmd, input=stdin, cwd=cwd, env=env or ledger_env(), timeout=timeout,
-                           stdout=subprocess.PIPE,
-                           stderr=subprocess.STDOUT if merge_stderr else subprocess.PIPE)
-    except subprocess.TimeoutExpired as e:
-        return 'timeout', e.stdout or b'', e.stderr or b''
+    for attempt in range(20):
+        try:
+            p = subprocess.run(cmd, input=stdin, cwd=cwd, env=env or ledger_env(), timeout=timeout,
+                               stdout=subprocess.PIPE,
+                               stderr=subprocess.STDOUT if merge_stderr else subprocess.PIPE)
+            break
+        except subprocess.TimeoutExpired as e:
+            return 'timeout', e.stdout or b'', e.stderr or b''
+        except OSError:
+            # the binary is being re-linked by a concurrent (locked) rebuild: wait for it
+            if attempt == 19:
+                raise
+            time.sleep(1.0)
     return p.returncode, p.stdout, (p.stderr or b'')
 
 
@@ -454,7 +461,7 @@ def conclude(prop, tier, seed, meta, proof, result, t0, search=None):
     if not proof['ok']:
         broken.append(dict(kind='theorem', name=proof['failed'], output=proof['output'][-3000:]))
     for d in result.disagreements[:50]:
-        broken.append(dict(kind='correspondence', **d))
+        broken.append(dict(kind='correspondence', detail=d))
     if broken and status == 0:
         # the property is no longer shown to hold; a concrete failing input was searched for
         # (the oracle ran on every generated case, and `search` widened the exploration)
